@@ -131,7 +131,8 @@ def _b(t, c):
         return sum([_b(x, c) for x in t[1]])
     if k == "gram":  # the A^H A / A^T A / A A^H / A A^T patterns built from ONE object
         A = _b(t[2], c)
-        return {"HA": lambda: A.H @ A, "TA": lambda: A.T @ A, "AH": lambda: A @ A.H, "AT": lambda: A @ A.T}[t[1]]()
+        return {"HA": lambda: A.H @ A, "TA": lambda: A.T @ A, "AH": lambda: A @ A.H, "AT": lambda: A @ A.T, "AA": lambda: A @ A,
+                "AAA": lambda: A @ A @ A}[t[1]]()
     if k == "T":
         return _b(t[1], c).T
     if k == "H":
@@ -202,7 +203,7 @@ def to_source(t):
     if k == "gram":
         a = to_source(t[2])
         return {"HA": f"(A.H @ A with A={a})", "TA": f"(A.T @ A with A={a})", "AH": f"(A @ A.H with A={a})",
-                "AT": f"(A @ A.T with A={a})"}[t[1]]
+                "AT": f"(A @ A.T with A={a})", "AA": f"(A @ A with A={a})", "AAA": f"(A @ A @ A with A={a})"}[t[1]]
     if k == "slice":
         return f"{to_source(t[1])}[{_slice_obj(t[2])!r}, {_slice_obj(t[3])!r}]"
     return str(t)
